@@ -220,7 +220,7 @@ def run(cx):
 
     with cx.ob("C02.6", "R-SIBLING", "request/response codecs agree on frame order and header types (C07.3 re-evaluated)") as ob:
         from . import c07
-        sub = cx.__class__("C02", prog, cx.tier, cx.config, cx.tree)
+        sub = cx.__class__("C02", prog, cx.tier, cx.config, cx.tree, repo=cx.repo)
         c07.run(sub)
         w = [x for x in sub.obs if x.oid.startswith("C07.3")]
         ob.count(sum(x.evals for x in w))
